@@ -565,5 +565,13 @@ def rule_w6(repo):
     return res
 
 
+def rule_w7(repo):
+    """Printing, parsing and type inference read the declarations of the current context, the theory and the printer settings
+    from process-wide variables that `with fresh_context(..)`, `fresh_theory()`, `global_setting(..)` set for the extent of a
+    block: sa/persist.scoped_state_rule."""
+    from ..persist import scoped_state_rule
+    return scoped_state_rule(repo, 'C07.W7')
+
+
 def rules(repo):
-    return [rule_w1(repo), rule_w2(repo), rule_w3(repo), rule_w4(repo), rule_w5(repo), rule_w6(repo)]
+    return [rule_w1(repo), rule_w2(repo), rule_w3(repo), rule_w4(repo), rule_w5(repo), rule_w6(repo), rule_w7(repo)]
